@@ -6,7 +6,7 @@ import Rare.Model.C20
 Mirrors (branch by branch) `pkg/multiterm/termscaler/scale.go`, `pkg/multiterm/termunicode/{bars,heat,spark}.go`,
 `pkg/color/coloring.go` (`Wrap`, `Write`, `HighlightSingleRune`, `StrLen`),
 `pkg/multiterm/termrenderers/{table,histoWriter,bargraph,datatable,heatmap,spark}.go` as they are
-AFTER the repairs b2c2a9f, 7206d40, 0b7fa09, b1ca348, 9780d5d, writing into the `VirtualTerm` model of C20.
+AFTER the repairs b2c2a9f, 7206d40, 0b7fa09, a20c03a, b1ca348, 9780d5d, 6408ebf, writing into the `VirtualTerm` model of C20.
 
 * Every Go panic source is an explicit `.error` (index out of range, slice bounds, negative
   `strings.Repeat`/`make`, integer divide by zero).  Loops whose termination is not structural carry fuel.
@@ -195,7 +195,7 @@ def scale {α : Type} (A : Arith α) (k : Scaler) (val min max : Int) : α :=
   else if val > max then A.ofInt 1
   else
     let (minf, maxf) := remapMinMax A k min max
-    if A.beq minf maxf then A.ofInt 0
+    if A.le maxf minf then A.ofInt 0
     else A.div (A.sub (mapVal A k (A.ofInt val)) minf) (A.sub maxf minf)
 
 /-- `termscaler.Bucket` -/
